@@ -395,12 +395,13 @@ def check_merge(fnode: ast.FunctionDef, defname: str, optname: str):
 def check_lookup(fnode: ast.FunctionDef, algname: str, tblname: str, mthname: str):
     """Evaluate a name -> implementation lookup helper on the scenarios of the specification: exact (case-insensitive) names return
     their own entry, anything else that is a string raises, a callable passes through unchanged, a non-string non-callable raises.
-    The table contains a key that is a prefix of another key and the probes include proper prefixes, so an abbreviation / fuzzy
+    The table contains a key that is a prefix of another key and the probes include proper prefixes, suffixes, super-strings and substrings, so an abbreviation / fuzzy
     match is visible.  Returns a list of problems."""
     table = {"rk4": "$F_rk4", "rk45": "$F_rk45", "euler": "$F_euler"}
     cb = CallableToken()
     probes = [("rk4", "$F_rk4"), ("RK4", "$F_rk4"), ("rk45", "$F_rk45"), ("Euler", "$F_euler"),
-              ("rk", Raised), ("eul", Raised), ("rk456", Raised), ("", Raised), ("nope", Raised), (cb, cb), (OtherToken(), Raised)]
+              ("rk", Raised), ("eul", Raised), ("rk456", Raised), ("xrk4", Raised), ("k4", Raised), ("ule", Raised),
+              ("", Raised), ("nope", Raised), (cb, cb), (OtherToken(), Raised)]
     problems = []
     for probe, want in probes:
         t = ADict(table, "methods")
